@@ -67,6 +67,8 @@ def check_scalar(t, v):
                 raise Reject("value", "unknown enumerator value")
             return v
         raise Reject("value", "neither string nor int")
+    if type(v) is bool and t.cat != "enum":
+        v = float(v) if t.is_float else int(v)      # a bool is an int; what is stored is the number
     if t.is_float:
         if type(v) not in (int, float):
             raise Reject("value", "not a float")
